@@ -27,7 +27,8 @@ VIRT = ['a', 'b', 'c', 'd', 'e', 'f', 'g', 'a1', 'b1', 'c2']
 
 def floors(tier):
     return {'points_compared': 2000, 'nonzero_reference_points': 200,
-            'isr_blocks': 15, 'mvp_blocks': 4, 'table_checks': 4}
+            'isr_blocks': 15, 'mvp_blocks': 4, 'table_checks': 4,
+            'mvp_sums': 5}
 
 
 def _dims_for(variant, spaces, r, tier):
@@ -56,7 +57,8 @@ def gen_cases(tier, seed):
                  dims=_dims_for(variant, spaces, r, tier) if spaces else [2, 2],
                  mseed=r.randrange(1 << 30), hseed=r.randrange(1 << 30))
         c.update(kw)
-        c['id'] = (f"C03-{tier[0]}{seed}-{len(cases):03d}-{variant}-{kind}-"
+        c['id'] = (f"C03-{tier[0]}{seed}-{len(cases):03d}-{variant}-{kind}"
+                   f"{kw.get('adc_order', '')}-"
                    f"{block.replace(',', '_')}-{order}"
                    f"{'' if subtract_gs else '-nogs'}")
         cases.append(c)
@@ -80,6 +82,13 @@ def gen_cases(tier, seed):
         for sp, blk, order in [(s1, f'{s1},{s1}', 2), (s1, f'{s1},{s2}', 1),
                                (s2, f'{s2},{s1}', 1), (s2, f'{s2},{s2}', 0)]:
             add(variant, 'mvp', blk, order, cost=20 + 20 * order)
+    for variant in ('pp', 'ip', 'ea'):
+        s1, s2 = spaces_upto(variant, 2)
+        for adc, sp, o, sgs in [(1, s1, -1, True), (2, s1, 1, False),
+                                (2, s2, -1, True), (2, s1, 2, False),
+                                (2, s2, 0, False), (1, s1, 1, False)]:
+            add(variant, 'mvpsum', f'{sp},{sp}', o, subtract_gs=sgs,
+                adc_order=adc, cost=60 + 60 * adc)
     if tier == 'thorough':
         for variant in ('pp', 'ip', 'ea', 'dip', 'dea'):
             s1, s2 = spaces_upto(variant, 2)
@@ -182,7 +191,7 @@ def run_case(case, res):
     if kind == 'table':
         return run_table(case, res, sm, variant)
     spI, spJ = case['block'].split(',')
-    ref, I = build_reference(case, order)
+    ref, I = build_reference(case, max(order, case.get('adc_order', 0)))
     if ref is None:
         res.skip('no usable model')
         return
@@ -226,29 +235,8 @@ def run_case(case, res):
         tgt = get_symbols(Io + Iv)
         val = ref.ev.value(expr, tgt)
         doms = [ref.model.domain(s) for s in tgt]
-        table = matrix_table(I, I.states, I.states, spI, spJ,
-                             case['subtract_gs'])
-        F = ref.model.F
-        fac = F.sqrt_int(isrmod.g_of(spJ)) * F.inv(
-            F.sqrt_int(isrmod.g_of(spI))) % p
-        yval = {}
-        for (Jv_, Jo_) in I.states[spJ]:
-            arr = ref.model.tensor_block(
-                'anti', 'Y', [np.array([a]) for a in Jv_],
-                [np.array([i]) for i in Jo_])
-            yval[(Jv_, Jo_)] = int(arr.reshape(-1)[0])
-        shape = tuple(len(d) for d in doms)
-        exp = np.zeros(shape, dtype=np.int64)
-        nIo, nIv = len(Io), len(Iv)
-        for pos in itertools.product(*[range(n) for n in shape]):
-            orbs = [int(d[k]) for d, k in zip(doms, pos)]
-            ci = canon(tuple(orbs[nIo:]), tuple(orbs[:nIo]))
-            if ci is None:
-                continue
-            tot = 0
-            for lj, y in yval.items():
-                tot += table[(ci[1], lj)][order] * y
-            exp[pos] = ci[0] * tot * fac % p
+        exp = mvp_reference(I, ref, spI, spJ, order, case['subtract_gs'], doms,
+                            len(Io))
         nz = int(np.count_nonzero(exp))
         res.count('mvp_blocks')
         res.count('points_compared', int(exp.size))
@@ -264,7 +252,71 @@ def run_case(case, res):
                 f'{exp.size} points; first {bad[0].tolist()} '
                 f'(model {case["dims"]})')
         return
+    if kind == 'mvpsum':
+        # mvp(adc_order, space, indices, order, subtract_gs) = sum over the blocks
+        # (space, J) of ADC(n) and the orders <= n - (mu-1) - (nu-1) (or the single
+        # requested order) of the block contributions
+        n = case['adc_order']
+        o_req = case['order'] if case['order'] >= 0 else None
+        expr = lib_call(sm.mvp, n, spI, sI, o_req, case['subtract_gs'])
+        tgt = get_symbols(Io + Iv)
+        val = ref.ev.value(expr, tgt)
+        doms = [ref.model.domain(s) for s in tgt]
+        spaces = isrmod.spaces_upto(variant, n // 2 + 1)
+        mu = spaces.index(spI)
+        exp = np.zeros(val.shape, dtype=np.int64)
+        for nu, spK in enumerate(spaces):
+            for o in range(0, n - mu - nu + 1):
+                if o_req is not None and o != o_req:
+                    continue
+                exp = (exp + mvp_reference(I, ref, spI, spK, o,
+                                           case['subtract_gs'], doms,
+                                           len(Io))) % p
+        nz = int(np.count_nonzero(exp))
+        res.count('mvp_sums')
+        res.count('points_compared', int(exp.size))
+        res.count('nonzero_reference_points', nz)
+        res.nontrivial = nz > 0
+        res.observed = {'indices': sI, 'terms': _nterms(expr),
+                        'points': int(exp.size), 'nonzero_reference': nz}
+        if not np.array_equal(val % p, exp):
+            bad = np.argwhere(val % p != exp)
+            res.violation(
+                f'{variant} mvp({n}, {spI}, {sI}, order={o_req}, subtract_gs='
+                f'{case["subtract_gs"]}) differs from the sum of the explicit '
+                f'block contributions at {len(bad)} of {exp.size} points '
+                f'(model {case["dims"]})')
+        return
     raise ValueError(kind)
+
+
+def mvp_reference(I, ref, spI, spJ, order, subtract_gs, doms, nIo):
+    """[lambda^order] g_I^-1/2 g_J^1/2 sum_{J restricted} M_IJ Y_J over the
+    orbital domains doms of the result indices (occ first, then virt)"""
+    from .. import isr as isrmod
+    p = ref.p
+    table = matrix_table(I, I.states, I.states, spI, spJ, subtract_gs)
+    F = ref.model.F
+    fac = F.sqrt_int(isrmod.g_of(spJ)) * F.inv(
+        F.sqrt_int(isrmod.g_of(spI))) % p
+    yval = {}
+    for (Jv_, Jo_) in I.states[spJ]:
+        arr = ref.model.tensor_block(
+            'anti', 'Y', [np.array([a]) for a in Jv_],
+            [np.array([i]) for i in Jo_])
+        yval[(Jv_, Jo_)] = int(arr.reshape(-1)[0])
+    shape = tuple(len(d) for d in doms)
+    exp = np.zeros(shape, dtype=np.int64)
+    for pos in itertools.product(*[range(n) for n in shape]):
+        orbs = [int(d[k]) for d, k in zip(doms, pos)]
+        ci = canon(tuple(orbs[nIo:]), tuple(orbs[:nIo]))
+        if ci is None:
+            continue
+        tot = 0
+        for lj, y in yval.items():
+            tot += table[(ci[1], lj)][order] * y
+        exp[pos] = ci[0] * tot * fac % p
+    return exp
 
 
 def run_table(case, res, sm, variant):
